@@ -1,4 +1,5 @@
 import NimaVerif.Lemmas.Update
+import NimaVerif.Lemmas.NPath
 /-!
 The `EditM` monad unfolded, and `setValue` / `removeValue` characterised on plain (unscoped)
 single-segment paths and attrpath leaves as updates by identity. Shared by C04 and C19.
@@ -162,4 +163,44 @@ theorem set_attrpath_leaf (d : Doc) (p : Text) (segs : List Text) (v : Node) (li
         cases rest <;> simp [ht, findAttrpathLeaf, walkAttrpathStack, setValues, findAttrpathRoot] at hl
     | some sid =>
       simp [hl, bindId?]
+
+/-! ## the path hypotheses hold for the canonical spelling of every name -/
+
+/-- the canonical spelling of a single name is an unscoped path … -/
+theorem splitScope_renderSeg (n : Text) : splitScopeNpath (renderSeg n) = .ok none := by
+  have h : ∀ c cs, renderSeg n = c :: cs → c ≠ '@' := by
+    intro c cs hc
+    unfold renderSeg at hc
+    split at hc
+    · rename_i hid
+      subst hc
+      simp only [isIdent, Bool.and_eq_true] at hid
+      intro h; subst h
+      exact absurd hid.1 (by decide)
+    · injection hc with h1 _
+      subst h1; decide
+  unfold splitScopeNpath
+  cases hr : renderSeg n with
+  | nil => simp
+  | cons c cs =>
+    have hc : (c == '@') = false := by simpa using h c cs hr
+    simp [List.takeWhile, hc]
+
+/-- … of exactly one segment: the spelling `set` itself writes for that name. -/
+theorem formatNPath_renderSeg (n : Text) :
+    formatNPath false (renderSeg n) = .ok [formatAttrName false (segOf n)] := by
+  have haddr : parseNPath false (joinWith ['.'] ([n].map renderSeg)) = .ok ([n].map segOf) := by
+    unfold parseNPath
+    rw [joinWith_renderSeg_ne_nil]
+    simp only [Bool.false_eq_true, if_false]
+    have h := npRun_path false [] n []
+    have hd : ({} : NPState) = { segs := [], buf := [], inQuotes := false, quotedSeg := false, escape := false } := rfl
+    rw [hd, h]
+    obtain ⟨h1, h2, st', h3, h4⟩ := endState_finalize false [] n []
+    simp only [h1, h2, h3, Bool.false_eq_true, if_false]
+    simpa using h4
+  simp only [List.map, joinWith] at haddr
+  simp [formatNPath, haddr, Except.map]
+
+
 end Nima
